@@ -16,3 +16,13 @@ Proof.
   - specialize (H2 2). vm_compute in H2. assert (E : Broken = Shows [2] 12) by (apply H2; lia). discriminate.
 Qed.
 Print Assumptions C12_as_found_refuted.
+
+(* The pinned commit accepted every command name: `../4/hello` puts the logs of the run in slot 5 into slot 4. *)
+From Coq Require Import String.
+From MR Require Import Lib.Bytes Lib.Val Model.RunPaths.
+Lemma C12_confinement_as_found_refuted : ~ C12_confinement_statement (fun _ => true).
+Proof.
+  intro H. specialize (H [bs "run"%string] (bs "5"%string) (bs "../4/hello"%string) (bs "h"%string) eq_refl eq_refl eq_refl).
+  vm_compute in H. discriminate.
+Qed.
+Print Assumptions C12_confinement_as_found_refuted.
